@@ -128,7 +128,13 @@ class Mirror:
         t = line.split()
         op, a = t[0], t[1:]
         if op == "save_group":
+            # a nostr group id carried by ANOTHER group is refused by both backends (memory: explicit check, SQLite: UNIQUE index)
+            if any(g != int(a[0]) and rec[1] == a[1] for g, rec in self.groups.items()):
+                return "err"
             self.groups[int(a[0])] = tuple(a); return "ok"
+        if op == "find_group_nostr":
+            hit = [rec for rec in self.groups.values() if rec[1] == a[0]]
+            return "none" if not hit else "some:g(" + ",".join(hit[0]) + ")"
         if op == "find_group":
             g = self.groups.get(int(a[0]))
             return "none" if g is None else "some:g(" + ",".join(g) + ")"
